@@ -213,6 +213,12 @@ def check(ctx, build=None):
                                                       "type SqL struct {\n\tside uint64\n}\n\nfunc (s SqL) area() uint64 {\n\treturn s.side\n}\n")
         probes["method-on-alias-receiver"] = ("type SA struct {\n\tv uint64\n}\n\ntype AA = SA\n\nfunc (x AA) m() uint64 {\n\treturn x.v\n}\n\nfunc callM(s SA) uint64 {\n\treturn s.m()\n}\n")
         probes["type-parameter-named-like-a-function"] = ("func id[T any](x T) T {\n\treturn x\n}\n\nfunc T() uint64 {\n\treturn id[uint64](1)\n}\n")
+        probes["self-call-inside-function-literal"] = ("func applyG(f func() uint64) uint64 {\n\treturn f()\n}\n\nfunc countdown(n uint64) uint64 {\n\tif n == 0 {\n\t\treturn 0\n\t}\n"
+                                                       "\treturn applyG(func() uint64 {\n\t\treturn countdown(n - 1)\n\t})\n}\n\ntype TreeL struct {\n\tnext *TreeL\n\tv    uint64\n}\n\n"
+                                                       "func (t *TreeL) Walk() uint64 {\n\tif t.next == nil {\n\t\treturn t.v\n\t}\n\tg := func() uint64 {\n\t\treturn t.next.Walk()\n\t}\n\treturn g() + t.v\n}\n")
+        probes["variable-spec-with-two-names"] = ("var firstV, secondV uint64 = 1, 2\n\nfunc sumV() uint64 {\n\treturn firstV + secondV\n}\n")
+        probes["variable-group-spec-with-two-names"] = ("var (\n\tloneV         uint64 = 5\n\tthirdV, fourthV uint64 = 3, 4\n)\n\nfunc sumG() uint64 {\n\treturn thirdV + fourthV + loneV\n}\n")
+        probes["constant-spec-with-two-names"] = ("const firstK, secondK uint64 = 1, 2\n\nfunc sumK() uint64 {\n\treturn firstK + secondK\n}\n")
         for pid, psrc in sorted(probes.items()):
             root = os.path.join(scratch, "probe")
             gomod.write_module(root, {"p": {"p.go": "package p\n\n" + psrc}})
@@ -228,13 +234,19 @@ def check(ctx, build=None):
             order = reps[1][6:].split(",") if reps[1] != "names -" else []
             funcs = re.findall(r"^func (\w+)\(", psrc, re.M)
             funcs = [f for f in funcs if f not in ("_", "init")]
+            # … and every name of a package-level const or var spec (alone or in a group)
+            for mv in re.finditer(r"^(?:var|const) ([A-Za-z_]\w*(?:, [A-Za-z_]\w*)*) ", psrc, re.M):
+                funcs += [x for x in mv.group(1).split(", ") if x != "_"]
+            for grp in re.finditer(r"^(?:var|const) \(\n(.*?)^\)", psrc, re.M | re.S):
+                for mv in re.finditer(r"^\t([A-Za-z_]\w*(?:, [A-Za-z_]\w*)*)\s", grp.group(1), re.M):
+                    funcs += [x for x in mv.group(1).split(", ") if x != "_"]
             twice = sorted({n for n in order if order.count(n) > 1})
             if twice or "_" in order:
                 viol("C04: goose accepts the package, but several definitions share one name (or are named `_`)",
                      {"proto": "c04-probe", "probe": pid, "source": "package p\n\n" + psrc}, "distinct declarations yield distinct definitions", {"defined_more_than_once": twice, "definitions": order})
             missing = [f for f in funcs if order.count(f) != 1]
             if missing:
-                viol("C04: goose accepts the package, but a top-level function has no definition (or more than one)",
+                viol("C04: goose accepts the package, but a top-level function, constant or variable has no definition (or more than one)",
                      {"proto": "c04-probe", "probe": pid, "source": "package p\n\n" + psrc}, {"each_defined_once": funcs}, {"missing_or_repeated": missing, "definitions": order})
             if pid.endswith(":mutual_recursion"):
                 continue          # a cyclic dependency graph: the order clause speaks about acyclic ones only
